@@ -16,6 +16,10 @@ def main():
     tests = "--tests" in sys.argv
     res = {"property": prop, "seed_dir": sd}
     sh("git checkout -- . && git clean -fdq", cwd=wt)
+    # evaluate against the CURRENT /repo HEAD (fix commits made after the seed was written)
+    rc, head = sh("git -C /repo rev-parse HEAD")
+    sh("git checkout -q --detach %s" % head.strip(), cwd=wt)
+    res["repo_head"] = head.strip()[:10]
     env = {"PYTHONPATH": wt, "PYTHONDONTWRITEBYTECODE": "1"}
     rc0, out0 = sh("/venv/bin/python %s/demo.py" % sd, cwd=wt, env=env, timeout=600)
     res["demo_clean_rc"] = rc0
